@@ -43,6 +43,14 @@ PASSWORDS = ["secret", "pässwörd €", "p,w=d", 'p"w', "", " lead", "y" * 120,
 AUTHZ = ["", "", "admin", "ädmin", "a,b=c"]
 
 
+CHARS = list("abcXYZ019 ,=\"\\'@.:;/+-_~%&<>()[]{}") + ["é", "ü", "€", "名", "前", "\U0001F600", "ß",
+                                                       "\u00a0", "\u2028", "\t"]
+
+
+def rand_text(rng, lo, hi):
+    return "".join(rng.choice(CHARS) for _ in range(rng.randint(lo, hi)))
+
+
 def plan(tier, seed):
     n = 20000 if tier == "quick" else 2000000
     k = 16 if tier == "quick" else 64
@@ -71,6 +79,11 @@ def run_shard(tier, shard, res: Result):
         authmech = rng.choice([None, None, "DIGEST-MD5", "PLAIN", "LOGIN", "OAUTHBEARER",
                                "X-UNKNOWN"])
         login, pw, authz = rng.choice(LOGINS), rng.choice(PASSWORDS), rng.choice(AUTHZ)
+        if rng.random() < 0.4:
+            login = rand_text(rng, 1, 14)
+            pw = rand_text(rng, 0, 20)
+            if rng.random() < 0.3:
+                authz = rand_text(rng, 1, 10)
         verdict = rng.choice(["accept", "accept", "wrong-password", "NO", "BYE"])
         users = {login.encode(): (pw if verdict != "wrong-password" else pw + "x").encode()}
         if authz:
